@@ -1,1 +1,8 @@
-//! Shared helpers for the vschema check parts.
+//! Shared helpers for the vschema check parts (C13): FieldType grammar,
+//! value / mutation generators, the reference model and the case executor.
+
+pub mod codec;
+pub mod exec;
+pub mod grammar;
+pub mod model;
+pub mod values;
